@@ -305,6 +305,14 @@ FlatPos(x, z, g, lo, k, hi, var) ==
            z2 == IF k = lo THEN z1 ELSE FlatInners(x, z1, z.act, g, k, var, 0)
        IN FlatPos(x, z2, g, lo, k + 1, hi, var)
 
+(* group_by: the keys in order of first appearance, the items of one key *)
+RECURSIVE KeysOf(_, _, _), ItemsOfKey(_, _, _)
+KeysOf(c, items, acc) == IF items = <<>> THEN acc
+                         ELSE LET k == KeyF(c, Head(items)) IN
+                              KeysOf(c, Tail(items), IF SeqContains(acc, k) THEN acc ELSE Append(acc, k))
+ItemsOfKey(c, items, k) == IF items = <<>> THEN <<>>
+                           ELSE (IF KeyF(c, Head(items)) = k THEN <<Head(items)>> ELSE <<>>) \o ItemsOfKey(c, Tail(items), k)
+
 (* documented output of AST x, subscribed after position lo of the global timeline g  *)
 (* (the notifications <<input, t, v>> sent into the hot inputs since the behaviour      *)
 (* began), when the timeline has reached position hi                                    *)
@@ -350,7 +358,12 @@ Ref(x, g, lo, hi, var) ==
     [] o \in RefUnaryOps -> RefUnary(x, Ref(S1(x), g, lo, hi, var))
     [] o \in TwoOps ->
          LET z == TwoFold(o, T0, InTL(x, g, lo, lo, hi, var), var) IN OfMsgs(z.out, <<>>)
-    [] o = "flat" -> OfMsgs(FlatPos(x, FlatZ0, g, lo, lo, hi, var).out, <<>>)
+    [] o = "group_by" ->        \* the stream of groups: one announcement G(0, key) per distinct key (group ids are not part of the contract)
+         LET src == Ref(S1(x), g, lo, hi, var)
+             keys == KeysOf(PA(x), src.items, <<>>) IN
+         [src EXCEPT !.items = [i \in 1..Len(keys) |-> G(0, keys[i])]]
+    [] o = "flat" /\ Op(S1(x)) = "group_by" -> Ref(S1(S1(x)), g, lo, hi, var)     \* merging the groups back
+    [] o = "flat" /\ Op(S1(x)) # "group_by" -> OfMsgs(FlatPos(x, FlatZ0, g, lo, lo, hi, var).out, <<>>)
     [] OTHER -> S(<<>>, "", U)
 
 (* what the two inputs of x deliver, in order: at every timeline position k the NEW   *)
